@@ -614,10 +614,32 @@ def gen_wake(rng, tier, n):
     for i, a in enumerate(pair_places):
         for b in pair_places[i:]:
             cases.append({"k": "wake", "wakes": [list(a), list(b)], "src": "exh"})
+    # the same placements with an executor that polls the runner INSIDE the task waker's wake()
+    # (a poll lands between the statements of wake_by_ref that follow task_waker.wake()); only
+    # wakes fired while the executor is idle (point 9) are affected, so every inline schedule
+    # has at least one, and no two wakes share an idle placement
+    for a in places:
+        if a[0] == 9:
+            cases.append({"k": "wake", "wakes": [list(a)], "inline": True, "src": "exh-inline"})
+    for a in pair_places:
+        for b in pair_places:
+            if b[0] == 9 and a != b and (a[0] != 9 or a < b):
+                cases.append({"k": "wake", "wakes": [list(a), list(b)], "inline": True, "src": "exh-inline"})
     k = n if tier == "quick" else n * 20
-    for _ in range(k):
+    for j in range(k):
         m = rng.range(3, 5)
-        cases.append({"k": "wake", "wakes": [[rng.below(10), rng.below(4)] for _ in range(m)], "src": "rnd"})
+        ws, seen9 = [], set()
+        for _ in range(m):
+            w = (rng.below(10), rng.below(4))
+            if w[0] == 9:
+                if w in seen9:
+                    continue
+                seen9.add(w)
+            ws.append(list(w))
+        inline = j % 2 == 1
+        if inline and not seen9:
+            ws.append([9, rng.below(2)])
+        cases.append({"k": "wake", "wakes": ws, "inline": inline, "src": "rnd-inline" if inline else "rnd"})
     return cases
 
 
@@ -638,12 +660,16 @@ def wake_term(case, res):
 
 def shrink_wake(case):
     ws = case["wakes"]
-    return [dict(case, wakes=ws[:i] + ws[i + 1:], src="shrunk") for i in range(len(ws))]
+    cands = [dict(case, wakes=ws[:i] + ws[i + 1:], src="shrunk") for i in range(len(ws))]
+    for i, w in enumerate(ws):
+        if w[1] > 0:
+            cands.append(dict(case, wakes=ws[:i] + [[w[0], w[1] - 1]] + ws[i + 1:], src="shrunk"))
+    return cands
 
 
 def wake_distribution(cases, results):
     d = {"nwakes": {}, "points": {}, "occ": {}, "src": {}, "ticks": {}, "fired": 0, "unfired": 0,
-         "spurious_repolls": 0}
+         "inline_executor": 0, "inline_wakes_fired_while_idle": 0}
     for c, r in zip(cases, results):
         d["nwakes"][str(len(c["wakes"]))] = d["nwakes"].get(str(len(c["wakes"])), 0) + 1
         d["src"][c.get("src", "?")] = d["src"].get(c.get("src", "?"), 0) + 1
@@ -651,6 +677,10 @@ def wake_distribution(cases, results):
             d["points"][str(w[0])] = d["points"].get(str(w[0]), 0) + 1
             d["occ"][str(w[1])] = d["occ"].get(str(w[1]), 0) + 1
         log = r.get("log", [])
+        if c.get("inline"):
+            d["inline_executor"] += 1
+            fired = {e[1] for e in log if e[0] == "w"}
+            d["inline_wakes_fired_while_idle"] += sum(1 for i, w in enumerate(c["wakes"]) if w[0] == 9 and i in fired)
         t = sum(1 for e in log if e[0] == "t")
         d["ticks"][str(t)] = d["ticks"].get(str(t), 0) + 1
         d["fired"] += sum(1 for e in log if e[0] == "w")
